@@ -22,46 +22,79 @@ MANIFEST = {
             "tuple per volume, in order, slice k = processed output of the volume's k-th item (loop invariant by induction over "
             "the batch list); hence independence of the batch size; composed with the C13 sampler theorems: predict on rank r "
             "yields exactly rank r's volumes, and all ranks together every volume once, for all layouts / world sizes / batch "
-            "sizes; _process_output is pointwise scale-by-own-factor, modulus, centre crop (C10). Tied to the code by translated "
-            "kernels (write window, counter, yield condition, filename guard, statement-order tables of the loop and of "
-            "_process_output) and by exact differential correspondence with the real reconstruct_volumes / predict / "
-            "_process_output on a marker model through a real DataLoader.",
-    "note": "Phase 2: Engine.predict / build_loader / build_batch_sampler / _compute_resolution / write_output_to_h5 are inside the "
-            "model (predictFull, buildBatchSampler, computeResolution, processBatch, writeOutput) with translated source-order "
-            "tables, theorems predict_full_spec (per-volume shapes and header-driven crops, any in-order loader), "
-            "write_roundtrip, predict_write_all_ranks, and an h5 round trip in the correspondence. Notes outside the statement: "
-            "files are named by basename only (write_collision_last_wins); the loop never reads slice_no, so an out-of-order "
-            "loader would permute slices silently (loader_reorder_misorders_slices) - in-order delivery is the explicit "
-            "hypothesis InOrder, probed with 0..2 workers and prefetch factors 1/2/4 on items that finish at random times; a "
-            "zero-slice volume after filtering (key empty-volume-after-filter, evidence notes) is outside the quantifier. "
-            "Trusted: Lean kernel (+propext, Classical.choice, Quot.sound), the AST translator, torch slice assignment / "
-            "broadcasting semantics as encoded by writeSlice and zipWith, DataLoader delivering batches in batch-sampler order for "
-            "any number of workers (checked on the implementation with 0..2 workers, not proved), harness patching of "
-            "communication.get_rank/get_world_size. The network is replaced by an identifiable marker; float arithmetic is exact "
-            "on the integer / dyadic probe data only. Volumes are assumed non-empty; images of width 2 would be taken for complex "
-            "data by is_complex_data (outside the generator).",
-    "technique": "Lean 4 proof (induction over the batch list with an explicit loop invariant) + AST translation bridge + "
-                 "differential correspondence on a toy MRIModelEngine",
+            "sizes; _process_output is pointwise scale-by-own-factor, modulus, centre crop (C10). Phase 3: the hypotheses of the "
+            "end-to-end theorem are discharged for both supported crop values (predict_full_no_crop is unconditional; "
+            "predict_full_header needs only 0 < header size <= image size per volume; predict_full_all_ranks_no_crop); the batch "
+            "model now carries slice_no, the target and the loss dict (reconstructL): the result does not depend on slice_no "
+            "(reconstruct_ignores_slice_no; the k-th output slice is the k-th slice DELIVERED), targets are assembled at the same "
+            "window, and the loss dict yielded with volume k is the mean of the first-batch loss dicts of volumes 0..k "
+            "(reconstructL_spec, loss_list_of_kth_yield). Loader model: windowOrders k = delivery orders of a loader with k batches "
+            "in flight (torch in_order=False); k = 1 is in-order (predict_full_spec_window_one); tolerated reorderings are exactly "
+            "those that keep every volume's batches contiguous (reconstruct_reordered, reconstruct_any_volume_order, "
+            "single_batch_volumes_any_order for every k when batch size >= every volume); swapped batches of one volume give "
+            "silently permuted slices for every k >= 2 (window_two_can_misorder), interleaved volumes are silently lost "
+            "(filename_change_discards_partial_volume, interleaved_volumes_are_lost). Tied to the code by translated kernels "
+            "(write window, counter, yield condition, filename guard), source-order tables of the loop, of _process_output, of "
+            "predict / build_loader / build_batch_sampler / _compute_resolution / write_output_to_h5, and (phase 3) tables of the "
+            "batch keys the loop reads (slice_no is not among them), of the curr_target / loss_dict_list / yield statements, of "
+            "the state written outside locals (none, except predict's ndim / checkpointer; decided predicate), of the callers "
+            "(evaluate, validation_loop, direct/inference.py, every call site in the package); and by exact differential "
+            "correspondence with the real reconstruct_volumes / predict / _process_output / write_output_to_h5 on a marker model "
+            "through real DataLoaders, toy datasets with arbitrary slice_no and REAL H5SliceData with slice_data filters.",
+    "note": "Engine.predict / build_loader / build_batch_sampler / _compute_resolution / write_output_to_h5 are inside the model "
+            "(predictFull, buildBatchSampler, computeResolution, processBatch, writeOutput) with translated source-order tables, "
+            "theorems predict_full_spec (per-volume shapes and header-driven crops), write_roundtrip (any previous directory "
+            "content, stale files included in the correspondence), predict_write_all_ranks. The oracle states the property on "
+            "five entry points (predict, reconstruct_volumes with add_target on/off and loss/regulariser dicts, evaluate, "
+            "validation_loop with two datasets in sequence, inference_on_environment + write_output_to_h5 read back) x dataset "
+            "kind (toy / real H5SliceData with slice filters) x slice_no policy x world/batch size (also > every volume)/workers x "
+            "crop x output layout (complex, float64, non-contiguous, views) x call history of the shared engine (other dataset "
+            "before, abandoned generator, generator that died mid-volume, interleaved generators, second pass over a loader). "
+            "Notes outside the statement: files and evaluate's metrics are keyed by basename only (write_collision_last_wins); "
+            "the loss dict of a volume is a running mean over the loader, not that volume's losses (loss_list_not_per_volume; "
+            "evidence note loss-dict-running-mean); a zero-slice volume after filtering (evidence note) is outside the "
+            "quantifier; _do_iteration takes the modulus of a complex output BEFORE the scaling, the target is scaled first "
+            "(equal for the non-negative scaling factors the transforms produce). Trusted: Lean kernel (+propext, "
+            "Classical.choice, Quot.sound), the AST translator, torch slice assignment / broadcasting semantics as encoded by "
+            "writeSlice and zipWith, default_collate, DataLoader delivering batches in batch-sampler order for the default "
+            "in_order=True (probed with 0..2 workers, prefetch 1/2/4; with in_order=False the observed orders are checked to be "
+            "windowOrders(workers x prefetch) orders), harness patching of communication.get_rank/get_world_size and of "
+            "inference.build_dataset_from_input / build_metrics. The network is replaced by an identifiable marker; float "
+            "arithmetic is exact on the integer / dyadic probe data only. Volumes are assumed non-empty; images of width 2 would "
+            "be taken for complex data by is_complex_data (outside the generator); evaluate's 3-D reshaping (ndim == 3) is not "
+            "modelled (the property is about 2-D data).",
+    "technique": "Lean 4 proof (induction over the batch list with an explicit loop invariant, permutation arguments for the loader "
+                 "model) + AST translation bridge (kernels + structure tables with decided predicates) + differential correspondence "
+                 "on a toy MRIModelEngine + property oracle over entry points x datasets x histories",
 }
 TRUSTED = [
     "Lean 4.33 kernel; axioms ⊆ {propext, Classical.choice, Quot.sound}",
-    "harness/translate recipes c14 (Python AST -> Lean): write window, counter, yield condition, filename guard, stage tables",
+    "harness/translate recipes c14 (Python AST -> Lean): write window, counter, yield condition, filename guard, stage tables, "
+    "loop-reads / target / state-writes / caller tables",
     "torch slice assignment / broadcasting / default_collate semantics as encoded by writeSlice, zipWith and loaderBatches",
-    "torch DataLoader yields batches in the order of the batch sampler for any num_workers (observed with 0..2 workers)",
-    "toy MRIModelEngine subclass (forward_function returns the dataset's marker), harness-side patching of "
-    "direct.utils.communication.get_rank/get_world_size, torchvision/tensorboard stubs (boot)",
+    "torch DataLoader (default in_order=True) yields batches in the order of the batch sampler for any num_workers (observed with "
+    "0..2 workers, prefetch 1/2/4); with in_order=False it has num_workers x prefetch_factor batches in flight (observed orders are "
+    "checked against Recon.windowOrders)",
+    "toy MRIModelEngine subclass (forward_function returns the dataset's marker; build_metrics replaced by a recording metric), "
+    "harness-side patching of direct.utils.communication.get_rank/get_world_size and direct.inference.build_dataset_from_input, "
+    "torchvision/tensorboard stubs (boot); h5py for the temporary files of the real H5SliceData",
 ]
 ASSUMPTIONS = [
     "marker data are integer valued and scaling factors dyadic, so float32/float64 arithmetic is exact and outputs are compared "
     "as integers",
     "every volume has at least one slice; image width != 2 for real-valued outputs",
-    "loader workers change when batches are produced, not their order",
+    "loader workers change when batches are produced, not their order (torch default in_order=True; hypothesis InOrder / "
+    "windowOrders 1 of the end-to-end theorems)",
+    "scaling factors are non-negative where complex model outputs are concerned (modulus before scaling in _do_iteration)",
 ]
-RULE = ("layouts as in C13 (up to 6 volumes x 1..9 slices); batch 1..8; world 1..4, every rank; loader workers 0..2; images 3..5 x "
-        "3..5 real or complex (Pythagorean pairs); per-slice dyadic scaling factors; crop on/off via the header path. raw loop: "
-        "arbitrary splits of volumes into batches and malformed streams (mixed batch, unknown file, overflow, repetition). "
-        "non-trivial = at least 2 volumes and some volume split over >= 2 batches (or a malformed stream); distinct = distinct "
-        "protocol line")
+RULE = ("layouts as in C13 (up to 6 volumes x 1..9 slices); batch 1..8 and 16; world 1..4, every rank; loader workers 0..2; images "
+        "3..5 x 3..5 real or complex (Pythagorean pairs); per-slice dyadic scaling factors; crop on/off via the header path; "
+        "slice_no policy pos/offset/stride/gaps/reversed/shuffled/constant/global or a real H5SliceData with slice_data filter; "
+        "entry point predict/recon/evaluate/validation_loop/inference; history fresh/after-other/after-break/after-error/"
+        "interleaved/second-pass. raw loop: arbitrary splits of volumes into batches with arbitrary slice_no and loss dicts, "
+        "malformed streams (mixed batch, unknown file, overflow, repetition) and reordered streams (window-2/3 delivery, volume "
+        "order, interleaving). non-trivial = at least 2 volumes and some volume split over >= 2 batches (or a malformed / "
+        "reordered stream); distinct = distinct protocol line / case")
 PENDING_FINDINGS: list[str] = []
 _RECON_CASES: dict = {}      # protocol line -> replayable description (well-formed streams), for `search`
 _PREDICT_CASES: dict = {}
@@ -674,6 +707,23 @@ class SlowDataset(torch.utils.data.Dataset):
         return {"index": i}
 
 
+def _loss_list_note(ctx: Ctx):
+    """OUTSIDE the statement of C14 (which is about the volumes): what the loss dict yielded with a volume is, on the real
+    code.  Recorded in the evidence, never a violation."""
+    table = [(0, 1), (1, 2)]
+    batches = [([0], [5], [1005], [0]), ([1], [6], [1006], [0]), ([1], [7], [1007], [1])]
+    ys, err = run_recon(table, batches, losses=True)
+    ctx.notes.append({"loss-dict-running-mean": {
+        "stream": "volume 0 = one batch (loss 5 units); volume 1 = two batches (losses 6 and 7 units)",
+        "observed_loss_per_yield_in_units": [y[3][0] / LOSS_UNIT for y in ys], "error": err,
+        "per_volume_mean_would_be": [5.0, 6.5],
+        "status": "NOTE: loss_dict_list is created before the loop, appended only when a volume is allocated (first batch) and "
+                  "never cleared, so volume k is yielded with mean(first-batch losses of volumes 0..k) (Lean: "
+                  "C14.loss_list_of_kth_yield, C14.loss_list_not_per_volume); evaluate() then averages these running means. "
+                  "Minimal repair if per-volume losses are intended: reset the list when a volume is allocated and append every "
+                  "batch's loss dict."}})
+
+
 def _empty_volume_note(ctx: Ctx):
     """C12/C13/C14 interplay, OUTSIDE the stated quantifiers (volumes have 1..9 slices): a real H5SliceData whose slice
     filter leaves a volume with zero slices in the middle, through the real samplers and reconstruct_volumes."""
@@ -896,6 +946,10 @@ def oracle(ctx: Ctx, deep: bool = False):
         _empty_volume_note(ctx)
     except Exception as e:  # noqa: BLE001
         ctx.notes.append({"empty-volume-after-filter": f"probe failed: {err_name(e)}: {e}"})
+    try:
+        _loss_list_note(ctx)
+    except Exception as e:  # noqa: BLE001
+        ctx.notes.append({"loss-dict-running-mean": f"probe failed: {err_name(e)}: {e}"})
 
 
 def replay(rep: dict) -> bool:
